@@ -235,12 +235,28 @@ pub fn run(ctx: &mut Ctx) {
     // hellos that fill most of the 16 KiB prebuffer, delivered whole (they need 16 reads of 1 KiB)
     let big: Vec<usize> = (0..hellos.len()).filter(|k| hellos[*k].1.len() > 15 * 1024 + 100 && hellos[*k].1.len() < 16380 && hellos[*k].0 != "fragmented").take(3).collect();
     let order: Vec<usize> = big.iter().cloned().chain((0..n_loop).map(|i| (i * 7) % hellos.len())).collect();
+    // peers that close before their first record is complete (port scans, health checks, cut connections): the loop must
+    // return at once with the random absent and the received bytes replayed - it has nothing more to wait for
+    let mut truncated: Vec<(String, Vec<u8>, Option<Vec<u8>>)> = vec![];
+    for hi in [0usize, hellos.len() / 2] {
+        let h = &hellos[hi].1;
+        for cut in [0usize, 1, 4, 5, 9, 43, 44, h.len() / 2, h.len().saturating_sub(1)] {
+            if cut < h.len() && h.len() < 4000 {
+                truncated.push(("truncated".to_string(), h[..cut].to_vec(), None));
+            }
+        }
+    }
+    let n_trunc = truncated.len();
+    let base = hellos.len();
+    let hellos: Vec<(String, Vec<u8>, Option<Vec<u8>>)> = hellos.iter().map(|(c, h, t)| (c.to_string(), h.clone(), t.clone())).chain(truncated).collect();
+    let order: Vec<usize> = order.into_iter().chain(base..base + n_trunc).collect();
     for (i, hi) in order.into_iter().enumerate() {
         let i = if i < big.len() { 5 } else { i - big.len() }; // whole delivery, 17-byte consumer reads for the big ones
         let (class, h, truth) = &hellos[hi];
+        let truncated_case = class == "truncated";
         // keep away from the 16 KiB cap where the answer legitimately depends on timing
         let mut stream = h.clone();
-        let extra = if i == 5 && h.len() > 15 * 1024 { 0 } else { *ctx.rng.pick(&[0usize, 5, 300]) };
+        let extra = if truncated_case || (i == 5 && h.len() > 15 * 1024) { 0 } else { *ctx.rng.pick(&[0usize, 5, 300]) };
         stream.extend(ctx.rng.bytes(extra));
         // the loop looks at the buffer before each read and stops when 16 KiB are buffered: a hello ending in
         // the last KiB of a stream that fills the buffer is found or not depending on how the reads fall (the
